@@ -156,4 +156,20 @@ char *strchr(const char *s, int c)
 }
 #endif
 
+/* STUB: ctype classification (isalpha, isdigit, islower, tolower, ...) - the "C" locale tables of the installed glibc, as data; arguments outside -128..255 are undefined behaviour in C and are asserted */
+#include "ctype_table.h"
+int verif_ctype(int c, int mask)
+{
+	__CPROVER_assert(c >= -128 && c < 256, "ctype: argument is EOF or representable as unsigned char");
+	return (c >= -128 && c < 256) ? (verif_ctype_b[c + 128] & (unsigned short) mask) : 0;
+}
+int verif_tolower(int c)
+{
+	return c >= -128 && c < 256 ? verif_ctype_lo[c + 128] : c;
+}
+int verif_toupper(int c)
+{
+	return c >= -128 && c < 256 ? verif_ctype_up[c + 128] : c;
+}
+
 #endif
